@@ -58,7 +58,7 @@ func ruleC04Seq(r *Run) {
 	e := &seqEngine{w}
 
 	// (1) the request-time chain
-	disp := w.Fn("rux", "Router.handleHTTPRequest")
+	disp := w.Dispatcher()
 	setH := w.Fn("rux", "Context.SetHandlers")
 	sinks := callsToFn(disp, setH)
 	r.Exists(rule, "(*Router).handleHTTPRequest:SetHandlers sinks", disp.Pos(), len(sinks) >= 1, fmt.Sprintf("%d SetHandlers call(s) in the dispatcher", len(sinks)))
@@ -647,7 +647,7 @@ func c05Limit(r *Run, onlyRoute bool) {
 		return
 	}
 	// the executed sum global + route + 1 must be covered where it is assembled or by the parts
-	disp := w.Fn("rux", "Router.handleHTTPRequest")
+	disp := w.Dispatcher()
 	setH := w.Fn("rux", "Context.SetHandlers")
 	for i, sk := range callsToFn(disp, setH) {
 		// is there a panic-guard on len(chain) before SetHandlers?
